@@ -13,6 +13,8 @@ import XmlDiffModel.Model.Match
 import XmlDiffModel.Model.Script
 import XmlDiffModel.Model.TextFormat
 import XmlDiffModel.Model.OldFormat
+import XmlDiffModel.Model.Api
+import XmlDiffModel.Model.Blank
 import Std.Data.HashMap
 open XmlDiffModel
 
@@ -332,6 +334,44 @@ def doOld (args : List String) : String :=
     | _, _, _ => "bad-op"
   | _ => "bad-op"
 
+/-- args: `fmt;keepWs;pretty;F;ratio;fast;best;unique;ignored;check` (F `n` or bits; unique /
+ignored `n` or an encoded string) -/
+def doPlan (args : List String) : String :=
+  match args with
+  | [a] =>
+    match a.splitOn ";" with
+    | [fmt, kw, pp, f, ratio, fast, best, uq, ig, chk] =>
+      let fm := if fmt == "xml" then Fmt.xml else if fmt == "old" then Fmt.old else Fmt.diff
+      let cli : CliArgs := {
+        formatter := fm
+        keepWs := (kw == "1")
+        pretty := (pp == "1")
+        F := f.toNat?
+        ratioMode := ratio.toNat?.getD 0
+        fastMatch := (fast == "1")
+        bestMatch := (best == "1")
+        unique := (decStr uq).getD none
+        ignored := (decStr ig).getD none
+        check := (chk == "1") }
+      let p := cliPlan cli
+      let fs := match p.formatter with | .diff => "diff" | .xml => "xml" | .old => "old"
+      let ua := "|".intercalate (p.uniqueattrs.map fun u => match u with
+        | .plain x => "p," ++ encStr (some x)
+        | .tagged t x => "t," ++ encStr (some t) ++ "," ++ encStr (some x))
+      let ign := "|".intercalate (p.ignored.map fun x => encStr (some x))
+      let fstr := match p.F with | some v => toString v | none => "n"
+      let b := fun (x : Bool) => if x then "1" else "0"
+      s!"ok {fs};{p.normalize};{b p.pretty};{fstr};{p.ratioMode};{b p.fastMatch};{b p.bestMatch};{ua};{ign};strip={b (parserStrips (some p.normalize))}"
+    | _ => "bad-op"
+  | _ => "bad-op"
+
+def doBlank (args : List String) : String :=
+  match args with
+  | [ts] => match decTree ts with
+    | some t => "ok " ++ encTree (stripBlank t) ++ " | " ++ (if SepContent t then "1" else "0")
+    | none => "bad-op"
+  | _ => "bad-op"
+
 def doOrders (args : List String) : String :=
   match args with
   | [ts] => match decTree ts with
@@ -354,6 +394,8 @@ def handle (line : String) : String :=
   | "orders" :: args => doOrders args
   | "fmt" :: args => doFmt args
   | "old" :: args => doOld args
+  | "plan" :: args => doPlan args
+  | "blank" :: args => doBlank args
   | "parse" :: args => doParse args
   | "json" :: args => doJson args
   | _ => "bad-op"
